@@ -357,10 +357,31 @@ var _ = fmt.Sprintf
 // TestC08_LongVarfloats: encodings whose counts need long (up to 9-byte) varfloats - arbitrary non-dyadic
 // weights, one per index so that nothing is summed - with every cut point against the non-collapsing consumers.
 func TestC08_LongVarfloats(t *testing.T) {
-	rapid.Check(t, func(t *rapid.T) {
+	rapid.Check(t, func(t *rapid.T) { cutEverywhere(t, false) })
+}
+
+// TestC08_FarIndexes: the same enumeration of every cut point with accuracies of 1e-7 .. 2e-6 and a handful of values
+// spread over the whole indexable range: bin indexes and index deltas then take 4 and 5 bytes (ordinary accuracies
+// never go beyond 3), also as the last field of the stream (unit entries of a paginated producer are written as bare
+// index deltas). Sparse and paginated stores only: a dense store would allocate the whole span.
+func TestC08_FarIndexes(t *testing.T) {
+	rapid.Check(t, func(t *rapid.T) { cutEverywhere(t, true) })
+}
+
+func cutEverywhere(t *rapid.T, far bool) {
+	{
 		cl := newCase("C08")
-		spec, m := buildMapping(t, 1e-3, 0.3)
-		srcKind := rapid.SampledFrom([]string{"dense", "sparse"}).Draw(t, "srckind")
+		lo, hi := 1e-3, 0.3
+		kinds := []string{"dense", "sparse"}
+		consumers := gen.NonCollapsing
+		if far {
+			lo, hi = 1e-7, 2e-6
+			kinds = []string{"paginated", "paginated", "sparse"}
+			consumers = []gen.StoreKind{{Name: "sparse"}, {Name: "paginated"}}
+			cl.label("far-indexes")
+		}
+		spec, m := buildMapping(t, lo, hi)
+		srcKind := rapid.SampledFrom(kinds).Draw(t, "srckind")
 		dom := newDomain(m)
 		n := rapid.IntRange(1, 12).Draw(t, "n")
 		base := rapid.IntRange(dom.minIdx+10, dom.maxIdx-80).Draw(t, "base")
@@ -368,9 +389,24 @@ func TestC08_LongVarfloats(t *testing.T) {
 			base = rapid.IntRange(-40, 40).Draw(t, "base0")
 		}
 		idx := rapid.SliceOfNDistinct(rapid.IntRange(0, 60), n, n, rapid.ID[int]).Draw(t, "idx")
+		if far {
+			n = rapid.IntRange(1, 5).Draw(t, "nfar")
+			base = 0
+			idx = rapid.SliceOfNDistinct(rapid.IntRange(dom.minIdx+10, dom.maxIdx-10), n, n, rapid.ID[int]).Draw(t, "idxfar")
+		}
 		ps, ns := gen.StoreKind{Name: srcKind}.New(), gen.StoreKind{Name: srcKind}.New()
 		for _, i := range idx {
 			var w float64
+			if far {
+				// unit entries only: a paginated producer keeps them in its buffer and writes them as bare index deltas
+				// (a weighted entry would make a paginated store allocate a page table over the whole span)
+				if rapid.Bool().Draw(t, "neg") {
+					ns.Add(base + i)
+				} else {
+					ps.Add(base + i)
+				}
+				continue
+			}
 			switch rapid.IntRange(0, 3).Draw(t, "wclass") {
 			case 0:
 				w = rapid.SampledFrom([]float64{0.1, 0.3, 1.0 / 3, 2.7, 1e-3, 123.456, 1e15 + 0.5}).Draw(t, "wspecial")
@@ -417,7 +453,7 @@ func TestC08_LongVarfloats(t *testing.T) {
 				cl.label("cut:8-of-9-varfloat-bytes")
 			}
 			nCuts++
-			for _, kind := range gen.NonCollapsing {
+			for _, kind := range consumers {
 				for _, supplied := range []bool{true, false} {
 					c := consumer{kind, "plain", supplied}
 					sk, _, _, err, pan := runConsumer(c, spec, m, pre, nil, false)
@@ -468,8 +504,17 @@ func TestC08_LongVarfloats(t *testing.T) {
 			}
 		}
 		stats.Count("C08", "cuts", nCuts)
-		stats.Count("C08", "cuts_strictly_inside_a_block", nInside/6)
-		stats.Count("C08", "decodes", nCuts*6)
-		cl.done(long)
-	})
+		stats.Count("C08", "cuts_strictly_inside_a_block", nInside/int64(2*len(consumers)))
+		stats.Count("C08", "decodes", nCuts*int64(2*len(consumers)))
+		fiveBytes := false
+		for _, b := range blocks {
+			for _, f := range b.Fields {
+				if (f.Kind == "varint" || f.Kind == "uvarint") && f.Len >= 5 {
+					fiveBytes = true
+				}
+			}
+		}
+		cl.labelIf(fiveBytes, "integer-field>=5-bytes")
+		cl.done(long || fiveBytes)
+	}
 }
